@@ -37,11 +37,18 @@ def writer_prefixes(facts):
             continue
         items = X.shape_fn(g["ws"], "ws", track=None)
         pref = []
+        def const(v):
+            return int(v) if re.fullmatch(r"-?\d+", str(v)) else None
         for it in items:
+            if it[0] == "If" and len(it) >= 4 and it[2] and it[3] and all(x[0] == "F" for x in tuple(it[2]) + tuple(it[3])) and [x[1] for x in it[2]] == [x[1] for x in it[3]]:
+                # both arms write fields of the same widths: the layout goes on, the values are not constants
+                for a, b in zip(it[2], it[3]):
+                    pref.append([a[1], const(a[2]) if const(a[2]) == const(b[2]) else None])
+                continue
             if it[0] != "F":
                 break
             v = it[2]
-            pref.append([it[1], int(v) if re.fullmatch(r"-?\d+", str(v)) else None])
+            pref.append([it[1], const(v)])
         res["%s::%s" % (rec.replace("datasketches::", ""), name)] = pref
     return res
 
@@ -81,6 +88,9 @@ def prefix_rule(facts):
             out.append(ob("layout.prefix", key, "", "unrecognised", "stream writer %s not found" % name, ""))
             continue
         got = cur[name]
+        # the documented prefix is what is fixed; an unconditional run that goes on beyond it (a conditional write folded into a
+        # ternary) is no change of the layout
+        got = got[:len(want)]
         if got == want:
             out.append(ob("layout.prefix", key, pats.get(name, ""), "discharged", "preamble prefix (width, constant): %s" % " ".join("%d%s" % (w, "" if c is None else "=%d" % c) for w, c in got), ""))
         else:
@@ -254,7 +264,13 @@ def ast_digest(fn):
                     t += "=%s" % n["v"]
                 if k == "Cast" and not n.get("impl"):
                     t += ":" + str(n.get("t"))
-                toks.append(t)
+                inner = n.get("e")
+                while isinstance(inner, dict) and inner.get("k") == "Paren":
+                    inner = inner.get("e")
+                if k == "Paren" or (k == "Cast" and not n.get("impl") and isinstance(inner, dict) and inner.get("t") == n.get("t")):
+                    t = None      # a cast to the type the operand already has, parentheses
+                if t:
+                    toks.append(t)
             for key in sorted(n):
                 if key in ("loc", "t", "sz", "n", "d", "q", "ts", "fid", "cpat", "callee", "crec", "targs", "ptypes", "from", "written"):
                     continue
